@@ -22,6 +22,10 @@ THEOREMS = [
      "forall s : state, reachable repaired s -> finished s = true -> "
      "(want s <= count h_acked (hooks s))%nat /\\ "
      "(want s = pre_count s -> forall h p, nth_error (hooks s) h = Some p -> h_registered p = true -> h_acked p = true)"),
+    ("completes_partial",
+     "forall (s : state) (fuel : nat), reachable repaired s -> requested s = true -> "
+     "quiescentb repaired (drain repaired fuel s) = true -> "
+     "exists sched s', run repaired s sched = Some s' /\\ completed s' = true"),
     ("finished_after_all_today_refuted",
      "exists s, reachable today s /\\ finished s = true /\\ all_done s = false"),
     ("no_hang_today_panic_refuted",
@@ -658,8 +662,9 @@ LEVEL_TEXT = ("Machine-checked Coq theorems over an executable labelled transiti
               "handler; waker registered after notify), each replayed step by step on the real code before it was repaired (three fix "
               "commits). The interleavings are sequentially consistent: the Release/Acquire store-buffering executions that the C/C++11 "
               "memory model allows between shutdown() (store flag, load count) and remove_connection() (decrement count, load flag) are NOT "
-              "covered and not claimed. 'completes' (from every requested state some continuation reaches the signal) is not proved as a "
-              "separate theorem; no_hang gives it for every maximal run of the threads, termination of those runs is not mechanised. The "
+              "covered and not claimed. 'completes' is proved only as completes_partial: whenever the deterministic scheduler of the model "
+              "comes to rest from a reachable requested state, a finite continuation has reached the completed state; that it always comes "
+              "to rest (termination of the threads' programs) is not mechanised. The "
               "model is tied to the repository on every run by replaying model schedules on a real server through rendez-vous hook points "
               "and by a method-level differential on a real Manager.")
 LEVEL_NOTE = ("Trusted: Coq kernel; extraction (ExtrOcamlBasic) reduced by an in-kernel recheck sample; the hand transcription of "
